@@ -518,6 +518,10 @@ def search(rng, tier, deep):
     mods = load(["Angle", "Epoch", "Coordinates", "Earth", "Sun", "Moon"])
     o = Oracle(mods)
     full = deep or tier == "thorough"
+    # reflection: -2000..4000
+    nr = 200 if full else 30
+    for k in range(nr):
+        o.reflection(round(_jde_of_year(-2000.0 + 6000.0 * (k + rng.random()) / nr), 3))
     # frames: years 1000..3000, dense and all seasons
     nf = 400 if full else 60
     for k in range(nf):
@@ -526,10 +530,6 @@ def search(rng, tier, deep):
         o.frames(round(_jde_of_year(y), 3), round(eq, 3))
     for y in (1000.0, 3000.0, 2000.0, 1992.7823):
         o.frames(round(_jde_of_year(y), 3), 2467616.0)
-    # reflection: -2000..4000
-    nr = 200 if full else 30
-    for k in range(nr):
-        o.reflection(round(_jde_of_year(-2000.0 + 6000.0 * (k + rng.random()) / nr), 3))
     # obliquity / nutation: -2000..4000, dense over the 18.6-year period
     nn = 20000 if full else 3000
     for k in range(nn):
